@@ -147,6 +147,15 @@ func newHist(r *kit.Run, rng *rand.Rand, netID uint32, nVals int) *hist {
 				a := es.RandTxParam(krng, dests[krng.Intn(len(dests))])
 				b := es.RandTxParam(krng, dests[krng.Intn(len(dests))])
 				u := es.RandTxParam(krng, dstLate)
+				switch g { // boundary identifiers: empty, one byte, very long
+				case 0:
+					a.CrossChainID = []byte{}
+				case 1:
+					a.CrossChainID = []byte{byte(krng.Intn(256))}
+				case 2:
+					a.CrossChainID = make([]byte, 300)
+					krng.Read(a.CrossChainID)
+				}
 				b.CrossChainID, u.CrossChainID = a.CrossChainID, a.CrossChainID
 				src.groups = append(src.groups, evmGroup{A1: src.s.Commit(krng, a), A2: src.s.Commit(krng, a), B: src.s.Commit(krng, b), U: src.s.Commit(krng, u)})
 			}
@@ -281,6 +290,8 @@ func (h *hist) submit(kind string, source uint64, height uint32, extra []byte, p
 				accepted = true
 				r.Count("accepted", 1)
 				r.Count("accepted:"+rt, 1)
+		h.countID(true, source, p.CrossChainID)
+				h.countID(true, source, p.CrossChainID)
 			} else {
 				r.Count("deciding_calls_expected_reject", 1)
 				if o.Rec.Ok || !o.Unchanged() || len(o.Rec.CrossHashes) != 0 {
@@ -295,6 +306,10 @@ func (h *hist) submit(kind string, source uint64, height uint32, extra []byte, p
 				} else {
 					r.Count("rejected", 1)
 					r.Count("rejected:"+rt, 1)
+			h.countID(false, source, p.CrossChainID)
+					if p != nil {
+						h.countID(false, source, p.CrossChainID)
+					}
 					r.Count("rejected:"+kind, 1)
 				}
 			}
@@ -317,7 +332,7 @@ func (h *hist) evmCall(kind string, src *evmSrc, p *es.TxParam, wantAccept bool,
 	rt := src.name
 	o := h.w.Do(call)
 	r.Eval(1)
-	h.logf("%s src=%d(%s) cross=%x to=%d -> ok=%v err=%q touched=%v leaves=%d", kind, source, rt, p.CrossChainID[:6], p.ToChainID, o.Rec.Ok, o.Rec.Err, o.Touched(), len(o.Rec.CrossHashes))
+	h.logf("%s src=%d(%s) cross=%s to=%d -> ok=%v err=%q touched=%v leaves=%d", kind, source, rt, short(p.CrossChainID), p.ToChainID, o.Rec.Ok, o.Rec.Err, o.Touched(), len(o.Rec.CrossHashes))
 	h.attribute(o)
 	accepted := false
 	if wantAccept && !h.done[key] {
@@ -482,6 +497,25 @@ func (h *hist) checkMarkers(kind string) {
 
 type natRec = nat.CallRecord
 
+// countID records that boundary identifiers were really exercised (vacuity guards).
+func (h *hist) countID(accepted bool, source uint64, cross []byte) {
+	switch {
+	case accepted && len(cross) == 0:
+		h.r.Count("accepted_with_empty_cross_chain_id", 1)
+	case accepted && len(cross) >= 252:
+		h.r.Count("accepted_with_long_cross_chain_id", 1)
+	case !accepted && len(cross) == 0 && h.done[msgKey{source, ""}]:
+		h.r.Count("replay_of_empty_cross_chain_id_rejected", 1)
+	}
+}
+
+func short(b []byte) string {
+	if len(b) > 8 {
+		return fmt.Sprintf("%x…(%d)", b[:8], len(b))
+	}
+	return fmt.Sprintf("%x", b)
+}
+
 func (h *hist) freshCross() []byte {
 	// cross-chain ids of various lengths, including ids that are prefixes / extensions of used ones
 	var used [][]byte
@@ -501,6 +535,11 @@ func (h *hist) freshCross() []byte {
 			}
 		case x == 2:
 			c = []byte{byte(h.rng.Intn(3))}
+		case x == 3: // the empty identifier
+			c = []byte{}
+		case x == 4: // very long identifiers
+			c = make([]byte, []int{252, 253, 300, 4096}[h.rng.Intn(4)])
+			h.rng.Read(c)
 		default:
 			c = make([]byte, 1+h.rng.Intn(33))
 			h.rng.Read(c)
@@ -535,6 +574,13 @@ func runHistory(r *kit.Run, rng *rand.Rand, nVals int, idx int) {
 		return
 	}
 	h.w.E.Height = heights[rng.Intn(len(heights))]
+	// node-local configuration is a dimension of the histories: a third run with the event log off
+	eventLog := rng.Intn(3) != 0
+	config.DefConfig.Common.EnableEventLog = eventLog
+	defer func() { config.DefConfig.Common.EnableEventLog = true }()
+	if !eventLog {
+		r.Count("histories_with_event_log_disabled", 1)
+	}
 	sources := []uint64{srcVoteA, srcVoteB, srcRipple}
 	dests := []uint64{dstEth, dstVote, srcVoteA}
 	var acc []accepted
@@ -696,7 +742,7 @@ func runHistory(r *kit.Run, rng *rand.Rand, nVals int, idx int) {
 			shape += "k"
 		}
 	}
-	r.Distinct("hist", nVals, shape, len(acc), h.w.E.Height > 19954185)
+	r.Distinct("hist", nVals, shape, len(acc), h.w.E.Height > 19954185, eventLog)
 	r.Count("histories", 1)
 	if idx < 2 {
 		tr := h.trace
@@ -751,7 +797,7 @@ func otherNetworks(r *kit.Run) {
 func TestC20(t *testing.T) {
 	r := kit.Start(t, "C20", "exploration")
 	defer r.Finish()
-	r.Rule("histories on main-net id: 4-8 submissions each drawn from {fresh valid, same subject again (other proof bytes / voters), same message at another height, other body with the same cross-chain id, failed first attempt (malformed bytes | unregistered destination | blacklisted destination | too few votes + outsiders + forged relayer) followed by a valid one}; a submission is a voting round of all validators in random order with outsiders and repeat voters mixed in; sources: two VOTE-router chains and one ripple chain; N validators 4..10; distinct = (N, sequence of submission kinds, #accepted, height regime)")
+	r.Rule("histories on main-net id: 4-8 submissions each drawn from {fresh valid, same subject again (other proof bytes / voters), same message at another height, other body with the same cross-chain id, failed first attempt (malformed bytes | unregistered destination | blacklisted destination | too few votes + outsiders + forged relayer) followed by a valid one}; a submission is a voting round of all validators in random order with outsiders and repeat voters mixed in; sources: two VOTE-router chains, one ripple chain, one eth chain and one bsc chain (proof-authenticated: fresh import, then replays with the same proof / at another synced height / with a second valid proof of the same message / with another committed body of the same cross-chain id; failed first attempts: message bytes not matching the proven hash, damaged proof, unknown height, unregistered or blacklisted destination); N validators 4..10; distinct = (N, sequence of submission kinds, #accepted, height regime)")
 	polyeth.VerifSealBypass = true
 	defer func() { polyeth.VerifSealBypass = false }()
 	nh := r.N(400, 9000)
@@ -769,13 +815,17 @@ func TestC20(t *testing.T) {
 	otherNetworks(r)
 	r.Set("routers_covered", []string{"vote (consensus_vote)", "ripple (as source)", "eth (ethash seal bypassed by the verif hook; header rules and Merkle-Patricia proofs real)", "bsc (really sealed Parlia headers)"})
 	r.Set("routers_uncovered", []string{"heco", "hsc", "msc", "pixiechain", "polygon bor", "bytom", "quorum", "cosmos", "okex", "ont", "neo", "neo3", "neo3legacy", "btc", "zilliqa", "zilliqalegacy", "starcoin", "harmony (BLS stub)"})
-	r.Assume("routers other than vote / ripple-as-source reach the same CheckDoneTx/PutDoneTx pair after their proof verification; their deposits are not synthesised in this check (proof logic is covered by C23/C30/C31), so the verdict holds for the vote-authenticated routers only")
+	r.Assume("routers other than vote / ripple-as-source / eth / bsc reach the same CheckDoneTx/PutDoneTx pair after their proof verification; their deposits are not synthesised in this check (proof logic is covered by C23/C30/C31), so the verdict holds for the four routers exercised only")
 	r.Assume("for the vote-authenticated routers a 'submission' is a voting round; it is decided at the call that brings the distinct-validator count to ceil(2N/3). Votes before that call may record themselves (voteInfo only); a repeated round on an already released subject may return success but must change nothing")
 	r.Assume("failure atomicity of a single call is provided by the transaction layer (C15); the driver reproduces HandleInvokeTransaction")
 	nhq := int(r.Get("histories"))
 	r.Require("accepted", nhq)
 	r.Require("accepted:vote", nhq/3)
 	r.Require("accepted:ripple", nhq/8)
+	r.Require("accepted_with_empty_cross_chain_id", nhq/20)
+	r.Require("replay_of_empty_cross_chain_id_rejected", nhq/20)
+	r.Require("accepted_with_long_cross_chain_id", nhq/20)
+	r.Require("histories_with_event_log_disabled", nhq/6)
 	r.Require("accepted:eth", nhq/8)
 	r.Require("accepted:bsc", nhq/8)
 	r.Require("rejected:eth", nhq/4)
